@@ -20,18 +20,18 @@ __CPROVER_assigns(*state, nv_ver_counter, nv_armijo, nv_wolfe, nv_swolfe) \
 /* every line search that reports success returns a finite positive step, for every double t0 */ \
 __CPROVER_ensures(NV_OK ==> (NV_FINITE(NV_T) && NV_T > 0.0))
 #define NV_LOOP_lsearchk_get_ieee_1 \
-__CPROVER_assigns(i, step_size, *state, nv_ver_counter) \
-__CPROVER_loop_invariant(0 <= i && i <= max_iterations && state0.ver <= nv_ver_counter && state->ver <= nv_ver_counter && nv_ver_counter < UINT64_MAX - 3000000 + i) \
-__CPROVER_loop_invariant(i > 0 ==> (state->origin == state0.ver && state->eval_ver == state->ver && state->ver != state0.ver && !state->valid)) \
-__CPROVER_loop_invariant(NV_FINITE(step_size) && 0.0 <= step_size && step_size <= 1.0 && (i == 0 ==> NV_STPMIN <= step_size)) \
-__CPROVER_decreases(max_iterations - i)
+__CPROVER_assigns(NV_LOOPVAR_lsearchk_get_ieee_1, step_size, *state, nv_ver_counter) \
+__CPROVER_loop_invariant(0 <= NV_LOOPVAR_lsearchk_get_ieee_1 && NV_LOOPVAR_lsearchk_get_ieee_1 <= max_iterations && state0.ver <= nv_ver_counter && state->ver <= nv_ver_counter && nv_ver_counter < UINT64_MAX - 3000000 + NV_LOOPVAR_lsearchk_get_ieee_1) \
+__CPROVER_loop_invariant(NV_LOOPVAR_lsearchk_get_ieee_1 > 0 ==> (state->origin == state0.ver && state->eval_ver == state->ver && state->ver != state0.ver && !state->valid)) \
+__CPROVER_loop_invariant(NV_FINITE(step_size) && 0.0 <= step_size && step_size <= 1.0 && (NV_LOOPVAR_lsearchk_get_ieee_1 == 0 ==> NV_STPMIN <= step_size)) \
+__CPROVER_decreases(max_iterations - NV_LOOPVAR_lsearchk_get_ieee_1)
 #define NV_LOOP_lsearchk_get_ieee_2 \
-__CPROVER_assigns(i, step_size, *state, nv_ver_counter) \
-__CPROVER_loop_invariant(0 <= i && i <= max_iterations && state0.ver <= nv_ver_counter && state->ver <= nv_ver_counter && nv_ver_counter < UINT64_MAX - 2500000 + i) \
+__CPROVER_assigns(NV_LOOPVAR_lsearchk_get_ieee_2, step_size, *state, nv_ver_counter) \
+__CPROVER_loop_invariant(0 <= NV_LOOPVAR_lsearchk_get_ieee_2 && NV_LOOPVAR_lsearchk_get_ieee_2 <= max_iterations && state0.ver <= nv_ver_counter && state->ver <= nv_ver_counter && nv_ver_counter < UINT64_MAX - 2500000 + NV_LOOPVAR_lsearchk_get_ieee_2) \
 __CPROVER_loop_invariant(NV_AT(state, &state0, step_size) && state->valid && state->eval_ver == state->ver && NV_FINITE(step_size) && step_size >= 0.0) \
 /* t *= 3 cannot leave (0, inf]: a positive step stays positive (the only way to reach do_get with t = 0 is to enter this loop with it) */ \
 __CPROVER_loop_invariant(__CPROVER_loop_entry(step_size) > 0.0 ==> step_size > 0.0) \
-__CPROVER_decreases(max_iterations - i)
+__CPROVER_decreases(max_iterations - NV_LOOPVAR_lsearchk_get_ieee_2)
 
 /* scalar lemma behind "a valid trial state has a finite step" (no libnano code): a non-finite step makes every coordinate of
  * x0 + t*d non-finite, whatever x0 and d are (inf*0 and NaN*d are NaN) */
